@@ -6,7 +6,9 @@ cd /repo || exit 2
 if ! git diff --quiet; then echo "/repo has uncommitted changes"; exit 2; fi
 git apply "$patch" || { echo "patch does not apply"; exit 2; }
 out=$(mktemp)
-(cd /verif && ./run "$id" "$tier" > "$out" 2>&1); rc=$?
+evd=$(mktemp -d)
+(cd /verif && VERIF_EVIDENCE_DIR="$evd" ./run "$id" "$tier" > "$out" 2>&1); rc=$?
+rm -rf "$evd"
 git -C /repo checkout -- .
 grep -E "VIOLATION|KNOWN-FINDING|HARNESS" "$out" | head -6
 tail -1 "$out" | cut -c1-200
